@@ -69,6 +69,16 @@ theorem gen_pickSystem_eq_model :
     Gen.pickSystem_slipVector = "system_0" ∧ Gen.pickSystem_strainInit = "system" ∧ Gen.pickSystem_buildP = "basesystem" ∧
     Gen.pickSystem_nyeTensor = "system" ∧ Gen.pickSystem_ddFunction = "system_0" := ⟨rfl, rfl, rfl, rfl, rfl⟩
 
+/-- `slip_vector`: the atom-count `ValueError` comes before the neighbour block. -/
+theorem gen_slipVectorRefusals_eq_model {L : Type} (n0 n1 : Nat) (n c a : Option L) :
+    Gen.slipVectorRefusals n0 n1 n c a = slipVectorRefusals n0 n1 n c a := by
+  unfold Gen.slipVectorRefusals slipVectorRefusals
+  rw [gen_pick_slipVector_eq_model]
+/-- `asdict` and `save_to_system`: the accepted and the default property names. -/
+theorem gen_asdictKeys_eq_model :
+    Gen.asdictDefault = defaultKeyNames ∧ Gen.asdictAll = allKeyNames ∧ Gen.saveDefault = defaultKeyNames ∧
+    Gen.saveAll = allKeyNames := ⟨rfl, rfl, rfl, rfl⟩
+
 /-! ### slip_vector.pyx, displacement.py, DifferentialDisplacement.solve -/
 theorem gen_slipStep_eq_model (c : Cell K) (pos0 pos1 : Nat → V3 K) (i : Nat) (acc : V3 K) (j : Nat) :
     Gen.slipStep c pos0 pos1 i acc j = slipStep c pos0 pos1 i acc j := rfl
@@ -340,6 +350,27 @@ theorem gen_pin_ddFunctionBody : Gen.pin_ddFunctionBody =
    "dvectors_0 = np.inner(np.atleast_2d(system_0.dvect(int(i), neighbors[i])), T)",
    "dvectors_1 = np.inner(np.atleast_2d(system_1.dvect(int(i), neighbors[i])), T)",
    "dd_vectors = dvectors_1 - dvectors_0"] := rfl
+
+/-- Strain.asdict: default handling and the loop over the keys -/
+theorem gen_pin_asdictLoop : Gen.pin_asdictLoop =
+  ["if properties is None:",
+   "    properties = defaultkeys",
+   "else:",
+   "    properties = aslist(properties)",
+   "for p in properties:",
+   "    assert p in allkeys, 'unknown property ' + p",
+   "    results[p] = getattr(self, p)",
+   "return results"] := rfl
+
+/-- Strain.save_to_system: default handling and the loop over the keys -/
+theorem gen_pin_saveLoop : Gen.pin_saveLoop =
+  ["if properties is None:",
+   "    properties = defaultkeys",
+   "else:",
+   "    properties = aslist(properties)",
+   "for p in properties:",
+   "    assert p in allkeys, 'unknown property ' + p",
+   "    self.system.atoms.view[p] = getattr(self, p)"] := rfl
 
 end core
 
